@@ -52,6 +52,14 @@ Proof.
 Qed.
 Print Assumptions memo_isolation.
 
+(* Isolation DISCIPLINE (not a noninterference proof): the boolean check run on the extracted
+   footprint implies that every request-phase write to a shared location — plain or atomic —
+   and every opaque mutation hits a location that the committed table classifies as memo
+   (then memo_isolation applies), monotone helper state, or request-private storage. *)
+Theorem isolation_checker_sound B opaque cls : isolatedb B opaque cls = true -> isolated B opaque cls.
+Proof. exact (isolatedb_sound B opaque cls). Qed.
+Print Assumptions isolation_checker_sound.
+
 (* ---------- non-vacuity ---------- *)
 
 (* the shape of goa.ValidatePattern: read under RLock, write under Lock *)
@@ -113,3 +121,14 @@ Proof. vm_compute; reflexivity. Qed.
 
 Example two_writers x : exists s, reach [[Acc x true]; [Acc x true]] s /\ race [[Acc x true]; [Acc x true]] s.
 Proof. eexists. exact (two_writers_race x). Qed.
+
+(* "remember the last negotiated value" in an atomic variable: no race, not isolated *)
+Example atomic_last_value_not_isolated :
+  disciplinedb_auto [[AAcc 9 true; AAcc 9 false]] = true /\
+  isolatedb [[AAcc 9 true; AAcc 9 false]] [] [(1, WMemo)] = false /\
+  unclassified_writes [[AAcc 9 true; AAcc 9 false]] [] [(1, WMemo)] = [9].
+Proof. repeat split. Qed.
+
+Example classified_memo_isolated :
+  isolatedb [cache_req] [] [(1, WMemo)] = true /\ isolatedb [cache_req] [3] [(1, WMemo)] = false.
+Proof. split; reflexivity. Qed.
